@@ -100,7 +100,17 @@ pub fn run_line(line: &str) -> String {
         for j in 0..cfgs.len() {
             if !alive[j] { continue; }
             let seg = outs[j].get(i).cloned().unwrap_or_else(|| "missing".into());
-            if seg == "err:oom" { alive[j] = false; continue; }
+            if seg == "err:oom" {
+                // permitted only for a cache too small to hold one operation: these workloads touch fewer than a hundred
+                // pages, so a cache configured with a thousand frames or more can never be that
+                let frames: u64 = cfgs[j].split(',').find_map(|kv| kv.strip_prefix("cache=")).and_then(|v| v.parse().ok()).unwrap_or(0);
+                if frames >= 1000 {
+                    res[i] = format!("cfgdiff{{{}=>err:oom although the cache is configured with {} frames}}", cfgs[j], frames);
+                    return res[..=i].join(" | ");
+                }
+                alive[j] = false;
+                continue;
+            }
         }
         if !alive[0] {
             // the first configuration ran out of cache: report the answers of the first one still alive
